@@ -258,6 +258,11 @@ def extension (p : Path) : Option Str :=
   else match splitLastAt '.' n with
     | none => none
     | some (before, after) => if before.isEmpty then none else some after
+/-- `Path::with_file_name` on a path text without trailing `/`: the text up to and including the last `/`, then the new name; a
+    single component becomes the name -/
+def with_file_name (p : Path) (n : Str) : Path := match splitLastAt '/' p with | some (before, _) => before ++ '/' :: n | none => n
+/-- `Option::unwrap_or_default` for texts -/
+def unwrap_or_default_str (o : Option Str) : Str := o.getD []
 /-- `Path::join` with a relative second argument -/
 def join (p : Path) (n : Str) : Path := if p.isEmpty then n else p ++ '/' :: n
 /-- `Option::and_then` -/
